@@ -8,13 +8,14 @@ pub struct Prop {
     pub replay: fn(&str, &Value) -> Result<Outcome, String>,
 }
 
+pub mod c02;
 pub mod c03;
 pub mod c05;
 pub mod c08;
 pub mod c11;
 pub mod c14;
 
-pub static ALL: &[Prop] = &[c03::PROP, c05::PROP, c08::PROP, c11::PROP, c14::PROP];
+pub static ALL: &[Prop] = &[c02::PROP, c03::PROP, c05::PROP, c08::PROP, c11::PROP, c14::PROP];
 
 /// Internal sub-commands (child processes of a check).
 pub fn internal(_cmd: &str, _args: &[String]) -> Option<i32> {
